@@ -92,6 +92,9 @@ class View:
         self.xt = {}         # other topics: key -> dict(call, timer, seqid, att)
         self.xmsgs = []      # rows added to other topics by this op
         for ln in lines:
+            if "=?" in ln:
+                # frames printed by the p2p driver's renderer name the group topic / channel by its raw name
+                ln = re.sub(r"=\?sys\b", "=sys", re.sub(r"=\?fnd\S*", "=fnd", re.sub(r"=\?grp\S*", "=G", re.sub(r"=\?chn\S*", "=C", ln))))
             w = ln.split(" ", 1)
             if w[0][0] == "S" and w[0][1:].isdigit():
                 if w[1].startswith(("pres ", "meta")):
